@@ -563,18 +563,27 @@ class Shape(E):
 
 @dataclass
 class Unknown(E):
-    """assert_exists(<object expr>).ptr : the tracer loses the type of the call and falls
-    back to WEAK references to every declared pointer of that name"""
+    """<untypable object expression>.ptr : the tracer cannot type the first step of the path
+    (set operator, `distinct`, function call, if-else) and falls back to WEAK references to
+    every declared pointer of that name"""
     inner: E
     pname: str
+    form: str = 'assert_exists'     # assert_exists | union | distinct | ifelse | coalesce
 
     def text(self, mod):
-        return f'assert_exists({self.inner.text(mod)}).{self.pname}'
+        x = self.inner.text(mod)
+        head = {'assert_exists': f'assert_exists({x})', 'union': f'({x} union {x})',
+                'distinct': f'(distinct {x})', 'ifelse': f'({x} if true else {x})',
+                'coalesce': f'({x} ?? {x})'}[self.form]
+        return f'{head}.{self.pname}'
 
     def refs(self, env):
         s, w, _ = self.inner.refs(env)
         w = set(w) | set(env['pointers'].get(self.pname, ()))
         return s, w, None
+
+
+UNTYPED_FORMS = ('assert_exists', 'union', 'distinct', 'ifelse', 'coalesce')
 
 
 # ================================================================== generator
@@ -683,6 +692,9 @@ class Gen:
             self._computeds(t)
         for t in u.types:
             self._type_extras(t)
+        # a weak dependency closing a cycle through >= 2 hard edges (see `weak_cycle`)
+        if self.chance(0.4):
+            self.weak_cycle()
         # computed globals, aliases
         for _ in range(rng.randint(0, 1)):
             e = self._top_str_expr()
@@ -690,6 +702,44 @@ class Gen:
         for _ in range(rng.randint(0, 2 if big else 1)):
             self._alias()
         return u
+
+    def weak_cycle(self, hidden=False):
+        """WA@h := <untypable>(U).p  ~~weak~~>  WT@p := wf('x')  -->  wf (uses WA.h)  -->  WA@h :
+        the weak reference (to every pointer called p, among them WT@p) closes a cycle whose
+        hard part is two or three edges long.  hidden=True puts a genuine function cycle
+        wf <-> wg behind the weak edge instead."""
+        rng, u = self.rng, self.u
+        cands = [(t, pn) for t in u.types for pn, pi in t.own.items()
+                 if pi.kind == 'prop' and pi.computed is None and pi.target != 'int64' and not pi.overloaded]
+        if not cands:
+            return False
+        U, p = rng.choice(cands)
+        A = TypeInfo(rng.choice(u.mods), self.fresh('WA'), rank=len(u.types))
+        h = PtrInfo(self.fresh('h'), 'prop', 'str', multi=True)
+        h.computed = Unknown(ObjRef(U.key), p, rng.choice(UNTYPED_FORMS))
+        A.own[h.name] = h
+        use_h = Cast('str', Call(None, 'count', [Path(A, [('p', h.name)])]))
+        fmod = rng.choice(u.mods)
+        f = FnInfo(fmod, self.fresh('wf'), [('a', 'str')], 'str', None, len(u.fns))
+        if hidden:
+            g = FnInfo(rng.choice(u.mods), self.fresh('wg'), [('a', 'str')], 'str',
+                       Op('++', Call(f.mod, f.name, [Raw('a')]), Lit('g')), len(u.fns) + 1)
+            f.body = Op('++', Call(g.mod, g.name, [Raw('a')]), Lit('f'))
+            u.fns += [f, g]
+        elif self.chance(0.4):
+            f2 = FnInfo(rng.choice(u.mods), self.fresh('wf'), [('a', 'str')], 'str',
+                        Op('++', Raw('a'), use_h), len(u.fns) + 1)
+            f.body = Op('++', Call(f2.mod, f2.name, [Raw('a')]), Lit('1'))
+            u.fns += [f, f2]
+        else:
+            f.body = Op('++', Raw('a'), use_h)
+            u.fns.append(f)
+        T = TypeInfo(rng.choice(u.mods), self.fresh('WT'), rank=len(u.types) + 1)
+        c = PtrInfo(p, 'prop', 'str', multi=True)
+        c.computed = Call(f.mod, f.name, [Lit('x')])
+        T.own[p] = c
+        u.types += [A, T]
+        return True
 
     def _no_conflict(self, t):
         # same pointer name reaching t from different origins is avoided
